@@ -27,6 +27,8 @@ func init() {
 				NeedCounters: []string{"retx-timer", "retx-carrier-lost", "retx-deferred", "no-retx-after-reply", "no-retx-after-cancel"}},
 			{Name: fmt.Sprintf("req-retry-hist-R0-D%d", d), Mode: "hist", Reset: kit.ResetGlobals, Body: func() { hist(d, 0) },
 				NeedCounters: []string{"cancel-on-loss"}},
+			{Name: fmt.Sprintf("req-retry-context-opened-later-hist-D%d", d-1), Mode: "hist", Reset: kit.ResetGlobals, Body: func() { histOpt(d-1, 10*time.Second, true) },
+				NeedCounters: []string{"context-opened-while-a-request-is-outstanding", "retx-carrier-lost", "retx-timer"}},
 			{Name: fmt.Sprintf("req-slow-peer-hist-D%d", d), Mode: "hist", Reset: kit.ResetGlobals, Body: func() { SlowPeerHist(d) }},
 			{Name: "req-newcomer-while-every-peer-is-busy", Mode: "enum", Reset: kit.ResetGlobals, Body: newcomerWhileBusy, NeedCounters: []string{"waiting-request-went-to-the-newcomer"}},
 			{Name: "stream-write-fails-then-retransmission", Mode: "enum", Reset: kit.ResetGlobals, Body: c16.WriteFailsThenRetransmit, NeedCounters: []string{"retransmitted-intact"}},
@@ -80,6 +82,7 @@ func (m *mctx) recvCall() ([]byte, error) {
 }
 
 type world struct {
+	late  bool // a further context may be opened by an event of the history
 	R     time.Duration
 	sock  mangos.Socket
 	ep    *vt.Endpoint
@@ -301,11 +304,29 @@ func (w *world) events() []kit.Event {
 		evs = append(evs, kit.Event{Name: "advance:R", Run: func() { kit.Sleep(w.R) }})
 		evs = append(evs, kit.Event{Name: "advance:R/2", Run: func() { kit.Sleep(w.R / 2) }})
 	}
-	if c := w.ctxs[1]; !c.closed {
-		evs = append(evs, kit.Event{Name: "close:ctx1", Run: func() {
+	for _, c := range w.ctxs[1:] {
+		c := c
+		if c.closed {
+			continue
+		}
+		evs = append(evs, kit.Event{Name: "close:" + c.name, Run: func() {
 			kit.Must("Context.Close", func() { _ = c.c.Close() })
 			c.closed = true
 			w.retire(c, "closed")
+		}})
+	}
+	if w.late && len(w.ctxs) < 3 {
+		evs = append(evs, kit.Event{Name: "open-context", Run: func() {
+			cx, err := w.sock.OpenContext()
+			if err != nil {
+				kit.Failf("open-context", "OpenContext: %s", kit.ErrName(err))
+			}
+			for _, m := range w.ctxs {
+				if m.cur != nil {
+					kit.Count("context-opened-while-a-request-is-outstanding")
+				}
+			}
+			w.ctxs = append(w.ctxs, &mctx{name: "late", c: cx, s: w.sock})
 		}})
 	}
 	return evs
@@ -484,7 +505,12 @@ func (w *world) settle() {
 	}
 }
 
-func hist(depth int, R time.Duration) {
+func hist(depth int, R time.Duration) { histOpt(depth, R, false) }
+
+// histOpt: with late set, a third context may be opened by an event of the history - while requests
+// of the socket or of the first context are outstanding: it owns none of them (closing or using it
+// changes nothing for them, a carrier loss re-sends each request once).
+func histOpt(depth int, R time.Duration, late bool) {
 	// A send deadline shorter than the retry interval must not matter once Send has returned:
 	// the request stays outstanding and keeps being re-sent.
 	sendDeadline = 0
@@ -502,6 +528,7 @@ func hist(depth int, R time.Duration) {
 		np = 1
 	}
 	w := setup(R, np)
+	w.late = late
 	kit.Hist(depth, w.events, w.settle)
 	// run every remaining timer out: nothing that is done may be transmitted again
 	for _, m := range w.ctxs {
